@@ -78,11 +78,14 @@ def run_family(ctx, props):
         paths, cov, total = tour.cover(init, adj, seed=ctx.seed + i, sample_edges=(9000 if q else None), max_len=60)
         bpath = ctx.path("beh_%s.ndjson" % name)
         tour.write_behaviours(paths, bpath)
-        for twoconn in ([False] if q else [False, True]):
-            tpath = ctx.path("trace_%s_%d.ndjson" % (name, twoconn))
-            fc = {"dotu": dotu, "hasauth": auth, "msize": 512 if (i % 2 == 0) else 8192, "nofid": 9, "twoconn": twoconn}
+        # slowpost: the implementation overrides request processing and is slow in SrvReqRespond (before the post-processing);
+        # a reply that gets out before the post-processing makes the next requests see a table the history does not justify
+        for twoconn, slowpost in ([(False, False), (False, True)] if q else [(False, False), (True, False), (False, True)]):
+            tpath = ctx.path("trace_%s_%d%d.ndjson" % (name, twoconn, slowpost))
+            fc = {"dotu": dotu, "hasauth": auth, "msize": 512 if (i % 2 == 0) else 8192, "nofid": 9, "twoconn": twoconn, "slowpost": slowpost}
             env = {"VERIF_BEHAVIOURS": bpath, "VERIF_FIDCFG": json.dumps(fc), "VERIF_TRACE_OUT": tpath}
-            rep, crashes = ctx.go_engine_resilient("srvh", "TestFidRef", env=env, timeout=1500, name="TestFidRef:%s:%d" % (name, twoconn))
+            rep, crashes = ctx.go_engine_resilient("srvh", "TestFidRef", env=env, timeout=1500,
+                                                   name="TestFidRef:%s:%d%s" % (name, twoconn, ":slowpost" if slowpost else ""))
             for cr in crashes:
                 ctx.violation("%s:server-crash:%s" % (sorted(props)[0].lower(), cr["func"]), "server panicked during history %s: %s" % (cr["case"], cr["panic"]),
                               {"engine": "TestFidRef", "fidcfg": fc, "behaviour": case_of(bpath, cr["case"])})
